@@ -21,13 +21,16 @@ import (
 	"net/http"
 	"net/http/httptest"
 	"net/netip"
+	"os"
 	"runtime"
 	"strings"
+	"sync/atomic"
 	"time"
 
 	"github.com/AdguardTeam/AdGuardDNS/internal/dnsserver"
 	"github.com/AdguardTeam/AdGuardDNS/internal/dnsserver/forward"
 	"github.com/AdguardTeam/AdGuardDNS/verifh/hlib"
+	"github.com/AdguardTeam/golibs/log"
 	"github.com/miekg/dns"
 	"github.com/quic-go/quic-go"
 )
@@ -50,6 +53,7 @@ func main() {
 	// Get, so that pooled-buffer reuse is the normal case, not a rare one.
 	runtime.GOMAXPROCS(1)
 
+	log.SetOutput(io.Discard)
 	o := hlib.ParseFlags()
 	r := hlib.NewResult("C06", o)
 	r.Rule = "case = fresh server instance, 0-8 earlier messages (history) then one next message on one receive path " +
@@ -70,17 +74,23 @@ func main() {
 	defer m.Close()
 
 	h := &harness{o: o, r: r, m: m}
-	h.witnesses()
-	h.boundaryCampaign()
-	h.randomCampaign()
-	h.exhaustiveTruncation()
-	h.burstCampaign()
-	h.exchangeCampaign()
-	h.concurrentExchangeCampaign()
-	h.requestCampaign()
-	h.retryCampaign()
-	h.prefixCampaign()
-	h.loopbackCampaign()
+	campaigns := []struct {
+		name string
+		run  func()
+	}{
+		{"witnesses", h.witnesses}, {"boundary", h.boundaryCampaign}, {"random", h.randomCampaign},
+		{"truncation", h.exhaustiveTruncation}, {"burst", h.burstCampaign}, {"exchange", h.exchangeCampaign},
+		{"concurrent-exchange", h.concurrentExchangeCampaign}, {"request", h.requestCampaign}, {"retry", h.retryCampaign},
+		{"prefix", h.prefixCampaign}, {"loopback", h.loopbackCampaign}, {"oob", h.oobCampaign}, {"chain", h.chainCampaign},
+	}
+	// C06_ONLY=<name>[,<name>] restricts a run to some campaigns (for
+	// experiments; ./check never sets it).
+	only := os.Getenv("C06_ONLY")
+	for _, c := range campaigns {
+		if only == "" || strings.Contains(","+only+",", ","+c.name+",") {
+			c.run()
+		}
+	}
 
 	r.ModelOps = h.modelOps
 	r.Finish()
@@ -2420,7 +2430,20 @@ func (h *harness) concurrentExchangeCampaign() {
 
 		return replies[binary.BigEndian.Uint16(req)]
 	}
+	var resetID atomic.Uint32
 	srv.slowTCP = func(c net.Conn, req []byte) bool {
+		if len(req) > 2 && resetID.Load() != 0 && resetID.CompareAndSwap(uint32(binary.BigEndian.Uint16(req)), 0) {
+			// Part of a reply, then a reset: the exchange retries on a new
+			// connection, which is answered normally.
+			_, _ = c.Write([]byte{0, 90, 0xee, 0xee, 0xee, 0xee, 0xee})
+			time.Sleep(20 * time.Millisecond)
+			if tc, ok := c.(*net.TCPConn); ok {
+				_ = tc.SetLinger(0)
+			}
+			_ = c.Close()
+
+			return true
+		}
 		if len(req) < 2 || binary.BigEndian.Uint16(req) != pauseID || half == nil {
 			return false
 		}
@@ -2464,7 +2487,38 @@ func (h *harness) concurrentExchangeCampaign() {
 		conf := &forward.UpstreamPlainConfig{Network: forward.NetworkTCP, Address: addr, Timeout: 3 * time.Second}
 		u := forward.NewUpstreamPlain(conf)
 		pauseID, half = 0, nil
-		_ = exch(u, reqW)
+		// Round 4: fault and lifecycle paths before the pair.  Every way an
+		// exchange can end (packReq refusing an oversize request, a deadline
+		// that has already passed, a connection reset in the middle of a
+		// reply and the retry, a short or undecodable reply) must give the
+		// pooled buffer back exactly once: a buffer released twice is handed
+		// to A and B at the same time.
+		var prelude []string
+		for k := rng.IntN(4); k > 0; k-- {
+			kind := []string{"ok", "oversize", "expired", "reset", "short", "garbage"}[rng.IntN(6)]
+			prelude = append(prelude, kind)
+			h.r.Count("exchange.prelude." + kind)
+			switch kind {
+			case "ok":
+				_ = exch(u, reqW)
+			case "oversize":
+				_ = exch(u, reqOfLen(rng, 65534+rng.IntN(2)))
+			case "expired":
+				ectx, ecancel := context.WithDeadline(context.Background(), time.Now().Add(-time.Second))
+				_, _, _ = u.Exchange(ectx, reqW.Copy())
+				ecancel()
+			case "reset":
+				resetID.Store(50)
+				_ = exch(u, reqW)
+				resetID.Store(0)
+			case "short":
+				replies[50] = []byte{0, 50, 0x81, 0, 0}
+				_ = exch(u, reqW)
+			case "garbage":
+				replies[50] = append(bytes.Repeat([]byte{0xff}, 40), 0xc0, 0xff)
+				_ = exch(u, reqW)
+			}
+		}
 		pauseID, half, release = 100, make(chan struct{}), make(chan struct{})
 		resA := make(chan string, 1)
 		go func() { resA <- exch(u, reqA) }()
@@ -2484,7 +2538,7 @@ func (h *harness) concurrentExchangeCampaign() {
 		wantB := exch(fresh, reqB)
 		_ = fresh.Close()
 		h.r.Count("exchange.concurrent_tcp")
-		h.r.Case(fmt.Sprintf("concurrent-exchange %x %x %d", repA, repB, split), true)
+		h.r.Case(fmt.Sprintf("concurrent-exchange %v %x %x %d", prelude, repA, repB, split), true)
 		all := gotA + gotB + wantA + wantB
 		if !paused || strings.Contains(all, "i/o timeout") || strings.Contains(all, "deadline exceeded") {
 			h.r.Count("exchange.discarded_timeout")
@@ -2492,7 +2546,7 @@ func (h *harness) concurrentExchangeCampaign() {
 			continue
 		}
 		replay := map[string]any{"reqA": hex.EncodeToString(mustPack(reqA)), "replyA": hex.EncodeToString(repA),
-			"reqB": hex.EncodeToString(mustPack(reqB)), "replyB": hex.EncodeToString(repB), "split": split}
+			"reqB": hex.EncodeToString(mustPack(reqB)), "replyB": hex.EncodeToString(repB), "split": split, "prelude": prelude}
 		if normErr(gotA) != normErr(wantA) {
 			h.r.Violate("exchange-tcp-concurrent-decode-mixup", fmt.Sprintf(
 				"UpstreamPlain.Exchange over tcp: reply %s (%s) paused after %d bytes while another exchange ran is returned as %q, alone it is returned as %q",
